@@ -155,7 +155,8 @@ def run(prog, tier) -> Result:
     reader_ok = False
     idiom = None
     for n in ast.walk(new.node):
-        if isinstance(n, ast.Call) and isinstance(n.func, ast.Attribute) and n.func.attr in ("split", "partition"):
+        if isinstance(n, ast.Call) and isinstance(n.func, ast.Attribute) and \
+                n.func.attr in ("split", "partition", "rsplit", "rpartition"):
             args = [src_of(a) for a in n.args]
             idiom = f"{n.func.attr}({', '.join(args)})"
             if n.func.attr == "split" and args in (["' '", "1"], ["None", "1"]):
